@@ -1173,6 +1173,8 @@ def r04f(an, rep, rule="R04.W", roundtrip=False):
         ("a function with a cell variable", FN, 1, 0, 0, ("a",), (None,), ("a",), "outer", ((), ("a",), None, (), None), None, None),
         ("a module", ("NOFREE",), 0, 0, 0, (), ("doc", None), (), "<module>", "nofunc", None, None),
         # 3.8 / 3.9 modules whose first statement is a multi-line display: the first instruction carries a line before co_firstlineno
+        ("a module under `from __future__ import annotations`", ("NOFREE", "annotations"), 0, 0, 0, (), ("doc", None), (), "<module>", "nofunc", None, None),
+        ("a function under `from __future__ import annotations`", FN + ("NOFREE", "annotations"), 1, 0, 0, ("a",), (None,), (), "f", ((), ("a",), None, (), None), None, None),
         ("a module whose first instruction is one line above co_firstlineno", ("NOFREE",), 0, 0, 0, (), (1, None), (), "<module>", "nofunc", None, None),
         ("a class body that owns the __class__ cell", (), 0, 0, 0, (), ("C", None), ("__class__",), "C", "nofunc", None, None),
         ("a function whose constant is a string with a lone surrogate", FN + ("NOFREE",), 0, 0, 0, (), (None, "\ud83d x"), (), "f", ((), (), None, (), None), None, None),
